@@ -356,7 +356,7 @@ def build(ctx):
     half = len(edges) // 2 if prep == 1 else len(edges)
     for i, r in edges[:half]:
         ctx.obj[i].requires(ctx.obj[r])
-    if prep:
+    if prep in (1, 2, 3):
         # a user may inspect the scheduler while building it: the query API
         # must not leave anything behind that a later run depends on
         for s in range(1, n + 1):
@@ -401,6 +401,37 @@ def build(ctx):
             sched.successors_downstream(ctx.obj[r])
             sched.check_cycles()
             sched.bypass_and_remove(mid)
+    if prep == 4:
+        # a requirement is swapped for another one and swapped back, with queries in
+        # between: the numbers of jobs and of requirements never change
+        for s in range(1, n + 1):
+            sched = ctx.obj[s]
+            if not isinstance(sched, PureScheduler):
+                continue
+            kids = [i for i in range(2, n + 1) if ctx.g("parent", i) == s]
+            mine = [(i, r) for (i, r) in edges if ctx.g("parent", i) == s]
+            if not mine:
+                continue
+            c, a = mine[(ctx.hk("hash", s, s)) % len(mine)]
+            down = {c}
+            grew = True
+            while grew:
+                grew = False
+                for (i, r) in mine:
+                    if r in down and i not in down:
+                        down.add(i)
+                        grew = True
+            others = [b for b in kids if b not in down and b not in ctx.g("req", c)]
+            if not others:
+                continue
+            b = others[ctx.hk("hash", c, c) % len(others)]
+            ctx.obj[c].requires(ctx.obj[a], remove=True)
+            ctx.obj[c].requires(ctx.obj[b])
+            list(sched.exit_jobs())
+            sched.successors_downstream(ctx.obj[b])
+            sched.check_cycles()
+            ctx.obj[c].requires(ctx.obj[b], remove=True)
+            ctx.obj[c].requires(ctx.obj[a])
     return top
 
 
